@@ -137,6 +137,14 @@ class Scenario:
             return lambda: pool.poke(utilisation=utilisation, allocation=allocation)
         if kind == "supply":
             return lambda: pool.poke(supply=value)
+        if kind == "stall":
+            def stall():
+                # the event loop is stalled (a blocking call elsewhere): time passes, nobody runs
+                import trio
+
+                log.append((trioclock.now(), "env", "loop", "stall", value))
+                trio.lowlevel.current_clock().jump(value)
+            return stall
         if kind == "quit":
             def quit_child():
                 # the oldest child disables itself but keeps draining its supply
@@ -198,6 +206,8 @@ def judge(case, scenario, run):
     if run.returned:
         return "%s.run:returned" % service, "run() returned at t=%s instead of running on" % (
             run.ended_at,)
+    if any(kind == "stall" for _when, kind, _value in case["history"]):
+        return judge_stalled(case, scenario, period)
     if service == "Buffer":
         return judge_buffer(case, scenario, period, duration)
     # instants at which the service acted, and how many steps it made there
@@ -256,6 +266,44 @@ def judge(case, scenario, run):
                     "after the boundaries %s (last environment action at t=%s) the children in "
                     "demand provide %s of the requested %s" % (settled, last_action, covered,
                                                                request))
+    if service == "LinearController":
+        points = [(0.0, 20.0)]
+        for entry in log:
+            if entry[1] == "set" and entry[3] == "demand":
+                points.append((entry[0], entry[4]))
+        rate = scenario.rate
+        for (t1, v1), (t2, v2) in itertools.combinations(points, 2):
+            if abs(v2 - v1) > rate * (t2 - t1 + period) + 1e-9:
+                return "LinearController.run:rate-bound", (
+                    "demand went from %s at t=%s to %s at t=%s: more than rate x (span + "
+                    "interval) = %s" % (v1, t1, v2, t2, rate * (t2 - t1 + period)))
+    return None
+
+
+def judge_stalled(case, scenario, period):
+    """After a stall the schedule may shift, but still: one step per interval of elapsed
+    time - never several steps at one instant - and LinearController's bound over any span"""
+    service, log = case["service"], scenario.log
+    steps = {}
+    if service in ("Stepwise", "DemandSwitch"):
+        for entry in log:
+            if entry[1] == "step":
+                steps[entry[0]] = steps.get(entry[0], 0) + 1
+    elif service in ("LinearController", "RelativeSupplyController"):
+        for entry in log:
+            if entry[1] == "set" and entry[3] == "demand":
+                steps[entry[0]] = steps.get(entry[0], 0) + 1
+    for when, count in sorted(steps.items()):
+        if count > 1:
+            return "%s.run:several-steps-per-period" % service, (
+                "%d regulation steps at t=%s after the event loop had been stalled (%r)"
+                % (count, when, case["history"]))
+    instants = sorted(steps)
+    for first, second in zip(instants, instants[1:]):
+        if second - first < period - 1e-9:
+            return "%s.run:steps-closer-than-interval" % service, (
+                "regulation steps at t=%s and t=%s, interval %s (%r)"
+                % (first, second, period, case["history"]))
     if service == "LinearController":
         points = [(0.0, 20.0)]
         for entry in log:
@@ -359,7 +407,30 @@ def depth_for(duration, depth):
     return depth if duration <= 3.5 else min(depth, 2)
 
 
+def shard_stall(args):
+    """One stall of the event loop (time jumps, nothing runs) in an otherwise quiet run"""
+    _, service, period = args
+    acc = Acc()
+    for init in INITS[service]:
+        for at, length in itertools.product((0.5, 1.25, 2.0), (1.2, 2.2, 3.2)):
+            case = {"service": service, "period": period, "duration": 7.0, "init": init,
+                    "history": [[at * period, "stall", length * period]]}
+            problem, executions, steps = run_case(case)
+            acc.case(nontrivial_key=repr(sorted(case.items())), sample=case if at == 1.25
+                     and length == 3.2 else None, n=executions)
+            acc.traces += executions
+            acc.transitions += steps
+            acc.count("histories")
+            acc.count("stall-histories")
+            acc.outcome((service, "stall", problem[0] if problem else None))
+            if problem:
+                acc.violation(problem[0], problem[1], {"case": case, "choices": problem[2]})
+    return acc
+
+
 def shard(args):
+    if args[0] == "stall":
+        return shard_stall(args)
     service, period, duration, init, depth, part, parts = args
     acc = Acc()
     for index, history in enumerate(histories(service, period, duration, depth)):
@@ -396,6 +467,7 @@ def run(ctx):
                     parts = 1 if use < 3 or duration < 2 else (4 if duration < 3 else 8)
                     for part in range(parts):
                         shards.append((service, period, duration, init, use, part, parts))
+    shards += [("stall", service, period) for service in SERVICES for period in PERIODS]
     ctx.pmap(shard, shards)
     ctx.meta.update(
         rule="service x period x run duration x initial pool state x every history of up "
@@ -411,6 +483,9 @@ def run(ctx):
                 "eps_in_periods": EPS, "services": SERVICES},
     )
     ctx.assumptions += [
+        "a stalled event loop is modelled by a jump of the virtual clock; after it only 'never "
+        "two steps at one instant / closer than an interval' and LinearController's bound over "
+        "every span are required (the schedule may legitimately shift)",
         "an instant that coincides with the end of the run (the injected cancellation) may "
         "or may not see its regulation step / flush: both are accepted",
         "a regulation step is observed as: a demand write, or (dead band of "
